@@ -154,6 +154,19 @@ pub fn c11(rng: &mut Rng, _tier: &str, idx: usize) -> Case {
     c.stat("pairs_without_common_ancestor", disconnected);
     c.op("dist 0".to_string());
     c.op("oracle paths 0".to_string());
+    if rng.chance(1, 4) && f.edges.len() >= 2 {
+        // a second ontology with the same ids and one link fewer, measured by the same objects
+        let mut f2 = f.clone();
+        let i = rng.below(f2.edges.len() as u64) as usize;
+        let e = f2.edges.remove(i);
+        if e == (1, 118) {
+            f2.edges.push(e);
+        }
+        facts_to_prog(rng, &f2, &ProgOpts { shuffle: true, failing_permille: 0, build_defaults: with_roots, slot: 1 }, &mut c);
+        c.op("dist 1".to_string());
+        c.op("oracle paths 1".to_string());
+        c.stat("second_ontology_same_ids", 1);
+    }
     c.nontrivial = multi > 0;
     c
 }
